@@ -496,7 +496,9 @@ def check_coordinate_dtypes(ctx):
                 ctx.violate(f"ray tracing raised {type(a_).__name__} for coordinates held as {[np.dtype(k).name for k in kinds]}", cj, {"kind": "coordinate_dtype"})
                 continue
             # float32 coordinates are exactly these small integers, so every dtype denotes the same positions
-            tol = 0 if wdt is np.float64 else 4e-7
+            # (a float32 set makes the kernel take its square roots in single precision whatever the working precision:
+            #  legitimate, and the first version of this check, with tolerance 0 there, raised a false alarm in the thorough tier)
+            tol = 0 if (wdt is np.float64 and np.float32 not in kinds) else 4e-7
             if not np.allclose(a_.times, b_.times, rtol=tol, atol=0):
                 worst = float(np.max(np.abs(a_.times - b_.times) / np.abs(b_.times)))
                 ctx.violate(f"travel times differ (relative {worst:.2e}) when the same positions are held as {[np.dtype(k).name for k in kinds]} instead of float64 "
